@@ -107,6 +107,8 @@ class Runner:
         self.loaded.append(p)
         for en in p.get("enums", []):
             SIM.enums[en["name"]] = getattr(self.mods[i], en["name"])
+        if p.get("enum_import"):
+            SIM.enums[p["enum_import"][1]] = getattr(self.mods[i], p["enum_import"][1])
 
     def teardown(self):
         for p in self.loaded:
